@@ -5,6 +5,7 @@ pub use expand::fn_timeline_src as fn_timeline;
 
 mod c15;
 mod c16;
+mod c17;
 mod expand;
 mod genrun;
 mod gt;
@@ -44,6 +45,7 @@ fn main() {
         let ok = match id.as_str() {
             "C15" => c15::replay(&v["case"]),
             "C16" => c16::replay(&v["case"]),
+            "C17" => c17::replay(&v["case"]),
             _ => machinery_fail("no replay for this id"),
         };
         if ok {
@@ -57,6 +59,7 @@ fn main() {
     match id.as_str() {
         "C15" => c15::run(run),
         "C16" => c16::run(run),
+        "C17" => c17::run(run),
         _ => machinery_fail("unknown property id"),
     }
 }
